@@ -448,7 +448,14 @@ func monitorLines(lines []string) (vs []hxlib.Violation) {
 				if c.timeout && within {
 					add("C05:waited-out-stop-timeout", fmt.Sprintf("m%d: all work and the stop routine had returned %d ms after the cancellation, yet the stopper waited out the stop timeout (%d ms)", e.mod, (last-c.tCancel)/1000, s.StopTimeout), e.idx)
 				}
-				if !c.timeout && e.t-last > promptUs {
+				// "promptly, without waiting out the stop timeout": judged against the scenario's stop timeout (half of
+				// it, at least promptUs) so that a machine under heavy load (1.8 s seen at load average 87 inside
+				// portbase's panic handling) cannot turn scheduling delay into an alarm
+				bound := int64(promptUs)
+				if h := int64(s.StopTimeout) * 1000 / 2; h > bound {
+					bound = h
+				}
+				if !c.timeout && e.t-last > bound {
 					add("C05:offline-not-prompt", fmt.Sprintf("m%d was reported offline %d ms after its last piece of work returned", e.mod, (e.t-last)/1000), e.idx)
 				}
 			}
